@@ -145,6 +145,24 @@ class C11(runner.Prop):
         # loaded *outside* the dict-order mode block
         loaded = pickle.loads(blob)
         compare_loaded(loaded, spec, ms, ctx, 'same_process')
+        # the mode of the *loading* context must not matter either: a spec made with sorted dicts is loaded inside
+        # an insertion-ordered block (global, and the spec's own namespace), compared outside it
+        if not gen.insertion_mode(cfg):
+            for tag, ns_ in (('global', U.GLOBAL),) + ((('own_ns', cfg['ns']),) if cfg['ns'] else ()):
+                with optree.dict_insertion_ordered(True, namespace=ns_):
+                    try:
+                        other = pickle.loads(blob)
+                    except Exception as e:  # noqa: BLE001
+                        ctx.fail(f'loaded_in_insertion_mode/{tag}/raises', f'{type(e).__name__}: {e}')
+                        continue
+                compare_loaded(other, spec, ms, ctx, f'loaded_in_insertion_mode/{tag}')
+                try:
+                    again = pickle.loads(pickle.dumps(other, protocol=proto))
+                except Exception as e:  # noqa: BLE001
+                    ctx.fail(f'loaded_in_insertion_mode/{tag}/second_round_trip_raises', f'{type(e).__name__}: {e}')
+                else:
+                    compare_loaded(again, spec, ms, ctx, f'loaded_in_insertion_mode/{tag}/second_round_trip')
+            ctx.label('loaded_in_other_mode')
         # treespecs derived from it (children / one-level / composed / rebuilt from a collection) keep the
         # parent's flags and namespace: they must survive the round trip exactly as well
         if case['remote'] is None:
